@@ -77,3 +77,26 @@ func verifLemmaTruncateQLinear(dst, src *linear.QSeq, start, end int) error {
 func verifLemmaJoinQLinear(dst, src *linear.QSeq, where int) error {
 	return Join(dst, src, where)
 }
+
+// ---- Trim -----------------------------------------------------------------------------
+// eAt(q, i): the error probability the feature reports at i; S(q, limit, i): prefix sums of (limit - error)
+// from the feature's start. float64 is modelled as real arithmetic.
+//@ spec eAt(q QualityFeature, i int) real
+//@ func (QualityFeature).EAt
+//@   pure
+//@   ensures result == eAt(self, arg0)
+//@ spec S(q QualityFeature, limit real, i int) real
+//@ axiom forall q QualityFeature, limit real, i int {S(q, limit, i), eAt(q, i)} :: S(q, limit, i + 1) == S(q, limit, i) + (limit - eAt(q, i))
+
+// Trim returns a window whose summed (limit - error probability) is maximal over all windows of the feature.
+//@ func Trim
+//@   property C06
+//@   requires q != nil && startOf(q) <= endOf(q)
+//@   ensures [ordered] start <= end
+//@   ensures [maximal] forall a int, b int :: startOf(q) <= a && a <= b && b <= endOf(q) ==> S(q, limit, b) - S(q, limit, a) <= S(q, limit, end) - S(q, limit, start)
+//@   loop 1 invariant startOf(q) <= cand && cand <= i && i <= endOf(q) && start <= end
+//@   loop 1 invariant sum == S(q, limit, i) - S(q, limit, cand)
+//@   loop 1 invariant forall a int :: startOf(q) <= a && a <= i ==> S(q, limit, cand) <= S(q, limit, a)
+//@   loop 1 invariant max == S(q, limit, end) - S(q, limit, start)
+//@   loop 1 invariant forall a int, b int :: startOf(q) <= a && a <= b && b <= i ==> S(q, limit, b) - S(q, limit, a) <= max
+//@   loop 1 decreases endOf(q) - i
